@@ -1,11 +1,11 @@
 """C12 -- Attribute classification from model descriptions."""
-from props.common import contract_tasks, TRUSTED_CORE
+from props.common import other_tasks, contract_tasks, TRUSTED_CORE
 
 PROPERTY = "C12"
 
 
 def tasks(tier):
-    return contract_tasks("contracts.in_or_out_set", "C12")
+    return contract_tasks("contracts.in_or_out_set", "C12") + other_tasks("contracts.connect_bounded", "C12", "bounded")
 
 
 TRUSTED_BASE = TRUSTED_CORE + [
